@@ -52,6 +52,17 @@ func (fv *FuncVerifier) runMerged(st0 *State) {
 			continue
 		}
 		delete(pending, b)
+		// states arriving at a returning block are not merged: the postconditions are checked
+		// per incoming state (no continuation follows, and un-merged heaps keep quantifier
+		// triggers simple)
+		if len(ins) > 1 && isReturnBlock(b) {
+			for _, s := range ins {
+				pending[b] = []*State{s}
+				fv.runReturnBlock(s, b)
+			}
+			delete(pending, b)
+			continue
+		}
 		st := fv.mergeStates(b, ins)
 		if st == nil {
 			continue
@@ -87,6 +98,36 @@ func (fv *FuncVerifier) runMerged(st0 *State) {
 				o.st.prev = b
 				pending[o.blk] = append(pending[o.blk], o.st)
 			}
+		}
+	}
+}
+
+func isReturnBlock(b *ssa.BasicBlock) bool {
+	if len(b.Instrs) == 0 {
+		return false
+	}
+	if _, ok := b.Instrs[len(b.Instrs)-1].(*ssa.Return); !ok {
+		return false
+	}
+	for _, ins := range b.Instrs {
+		switch ins.(type) {
+		case *ssa.If, *ssa.Jump:
+			return false
+		}
+	}
+	return true
+}
+
+func (fv *FuncVerifier) runReturnBlock(st *State, b *ssa.BasicBlock) {
+	st = fv.mergeStates(b, []*State{st})
+	for _, ins := range b.Instrs {
+		if _, isPhi := ins.(*ssa.Phi); isPhi {
+			continue
+		}
+		fv.fork = nil
+		_, end := fv.step(st, b, ins)
+		if end {
+			return
 		}
 	}
 }
@@ -191,6 +232,19 @@ func iteSameBase(g, x, y Term) Term {
 
 func (fv *FuncVerifier) merge2(a, b *State) *State {
 	enc := fv.enc
+	// a variable that holds the address of a local object on one side and an ordinary reference
+	// on the other: the local object escapes (becomes a heap object) so that both are references
+	for c, vb := range b.cells {
+		va, ok := a.cells[c]
+		if !ok {
+			continue
+		}
+		if va.Place != nil && va.Place.Kind == PLocal && vb.Place == nil && vb.Clo == nil {
+			a.cells[c] = a.promote(va)
+		} else if vb.Place != nil && vb.Place.Kind == PLocal && va.Place == nil && va.Clo == nil {
+			b.cells[c] = b.promote(vb)
+		}
+	}
 	g := enc.fresh("join", SBool)
 	m := a.clone()
 	// path conditions: common prefix + guarded suffixes
@@ -225,12 +279,12 @@ func (fv *FuncVerifier) merge2(a, b *State) *State {
 	for c, rb := range b.promoted {
 		ra, ok := a.promoted[c]
 		if !ok {
-			// escaped on one path only: treat the cell as escaped; materialise on the other side
-			va := Value{Typ: c.Type(), L: []Term{I(0)}, Place: &Place{Kind: PLocal, Typ: cellType(c), Cell: c}}
-			pa := a.promote(va)
-			m = nil
-			_ = pa
-			panic(unsupported("local escapes on one side of a join only"))
+			if _, exists := a.cells[c]; exists {
+				panic(unsupported("local escapes on one side of a join only"))
+			}
+			// the object exists only on side b
+			m.promoted[c] = rb
+			continue
 		}
 		if ra.S != rb.S {
 			m.promoted[c] = Ite(g, ra, rb)
@@ -238,7 +292,9 @@ func (fv *FuncVerifier) merge2(a, b *State) *State {
 	}
 	for c := range a.promoted {
 		if _, ok := b.promoted[c]; !ok {
-			panic(unsupported("local escapes on one side of a join only"))
+			if _, exists := b.cells[c]; exists {
+				panic(unsupported("local escapes on one side of a join only"))
+			}
 		}
 	}
 	// heap
@@ -324,6 +380,19 @@ func (fv *FuncVerifier) merge2(a, b *State) *State {
 			m.rangePos[r] = Ite(g, pa, p)
 		} else if !ok {
 			m.rangePos[r] = p
+		}
+	}
+	// last guarded reads: keep every record; where both sides have one, select by the guard
+	for k, rb := range b.lastRead {
+		if ra, ok := a.lastRead[k]; ok && ra.S != rb.S {
+			m.lastRead[k] = Ite(g, ra, rb)
+		} else if !ok {
+			m.lastRead[k] = Ite(g, I(-1), rb) // -1: no read on that side
+		}
+	}
+	for k, ra := range a.lastRead {
+		if _, ok := b.lastRead[k]; !ok {
+			m.lastRead[k] = Ite(g, ra, I(-1))
 		}
 	}
 	for c, s := range b.allocSeq {
